@@ -22,12 +22,12 @@ func genC20(t *rapid.T) Scenario {
 		x := rapid.IntRange(0, 2).Draw(t, "x")
 		y := (x + 1 + rapid.IntRange(0, 1).Draw(t, "dy")) % 3
 		k := rapid.SampledFrom([]string{"register", "unregister", "cancel", "disconnect", "detail", "detail", "autoaccept", "payload", "payload",
-			"appear", "disappear", "cut", "register", "payload", "shutdown"}).Draw(t, "op")
+			"appear", "disappear", "cut", "register", "payload", "shutdown", "readdr", "readdr", "readdr"}).Draw(t, "op")
 		if k == "shutdown" && rapid.IntRange(0, 3).Draw(t, "reallyShutdown") != 0 {
 			k = "detail"
 		}
 		sc.Ops = append(sc.Ops, HubOp{K: k, X: x, Y: y, WaitMs: rapid.SampledFrom([]int{0, 0, 0, 1, 5, 30, 200, 600}).Draw(t, "wait"),
-			Conc: rapid.IntRange(0, 3).Draw(t, "conc") != 0})
+			Conc: rapid.IntRange(0, 3).Draw(t, "conc") != 0, Spell: rapid.SampledFrom([]int{0, 0, 0, 1, 2}).Draw(t, "spell")})
 	}
 	return sc
 }
